@@ -93,6 +93,11 @@ def target_spec(name):
         fl = BASE + HOOKS + (["-O2"] if name == "enc_fast" else SAN + ["-O1"])
         units = [(f"{S}/enc/enc_main.cpp", "enc_main.o", fl), (f"{REPO}/art_internal.cpp", "art_internal.o", fl)]
         return "g++", units, ([] if name == "enc_fast" else SAN), ["enc"]
+    if name == "olc":
+        fl = BASE + HOOKS + STATS + SAN + ["-O1"]
+        units = [(f"{S}/conc_olc/olc_main.cpp", "olc_main.o", fl)]
+        units += [(f"{REPO}/{f}", f.replace(".cpp", ".o"), fl) for f in REPO_LIB]
+        return "g++", units, SAN + ["-pthread"], ["sched", "conc_olc"]
     if name == "qsbr":
         fl = BASE + HOOKS + SAN + ["-O1"]
         units = [(f"{S}/conc_qsbr/qsbr_main.cpp", "qsbr_main.o", fl)]
@@ -710,7 +715,65 @@ def check_qsbr(pid, tier, seed):
     return finish(pid, res)
 
 
+OLC_GEN = ("programs = initial tree built around a focus node whose fan-out sits at a size-class boundary (1,2,3,4,5,16,"
+           "17,48,49 children) under 0-2 upper levels and a 0-3 byte compressed path, with inner children below it "
+           "and sibling branches above it, plus 2-3 threads x 1-3 operations (get / insert / remove [/ scans]) on "
+           "keys of that neighbourhood with quiescent states after every operation or only at thread end; "
+           "schedules: exhaustive DFS over all schedules with <= P preemptions (up to an execution cap per "
+           "program), PCT and random walks; ")
+OLC_RULES = {
+    "C03": OLC_GEN + "oracle: per-key Wing-Gong linearizability of the stamped call/return/result history (values "
+           "are unique per insert), including a final single-threaded read of every key; non-trivial = >= 1 "
+           "preemption and a successful writer overlapping another operation; distinct by hash(program, schedule)",
+    "C04": OLC_GEN + "oracle: ASan on every access, value views from get and scan re-read before the holder's next "
+           "quiescent state, allocation/free notifications (exactly-once, nothing lost: after the drain the bytes "
+           "held equal the reported memory use, destruction empties the live set), post-run single-threaded sweep "
+           "touching every node; non-trivial = a node or leaf was freed during the concurrent phase, or retired by "
+           "a structural change overlapping another operation; distinct by hash(program, schedule)",
+    "C09": OLC_GEN + "one or two scanning threads (scan / scan_from / scan_range, both directions, optional halt; "
+           "the visitor is a scheduling point); oracle per scan: strictly monotone keys, inside the interval, each "
+           "value held by its key at some moment during the scan, exactly once for keys stable over the scan, "
+           "never for stably absent keys; non-trivial = a successful insert/remove overlapped the scan; distinct "
+           "by hash(program, schedule)",
+    "C14": OLC_GEN + "oracle: scheduler deadlock verdict (all unfinished threads spin without progress), "
+           "single-threaded sweep after every execution (get of every key, full scans, insert+remove probe next "
+           "to every key) must never reach a spin-wait, bounded progress (step limit => inconclusive); "
+           "non-trivial = the execution contained >= 1 spin-wait (contention happened); distinct by hash(program, "
+           "schedule)",
+}
+
+
+def check_olc(pid, tier, seed):
+    t0 = time.time()
+    exe = build("olc")
+    res = Result()
+    nrep = sched_replays(pid, exe, res)
+    outdir = os.path.join(WORK, "run", pid)
+    shutil.rmtree(outdir, ignore_errors=True)
+    os.makedirs(outdir)
+    if tier == "quick":
+        plans = [["--seed", str(seed * 1000 + i), "--programs", "26", "--dfs-p", "1" if i % 4 else "2",
+                  "--dfs-cap", "4000", "--pct", "40", "--rand", "40"] for i in range(NCPU)]
+    else:
+        plans = [["--seed", str(seed * 1000 + i), "--programs", "1500", "--dfs-p", "2", "--dfs-cap", "30000",
+                  "--pct", "100", "--rand", "100", "--pct-depth", "4"] for i in range(NCPU)]
+    run_sched_workers(pid, exe, plans, outdir, res)
+    counters, distinct, samples = merge_stats(sched_stats_files(outdir, len(plans)))
+    cov = sched_coverage(pid, counters, distinct, samples, OLC_RULES[pid], res, nrep)
+    cov["preemption_bound"] = "1-2 (quick), 2 (thorough), capped per program (see programs_dfs_capped)"
+    write_evidence(pid, tier, seed, "exploration", cov, time.time() - t0, len(res.violations),
+                   ["sequential consistency at the granularity of one hooked access (lock word load/CAS/store, "
+                    "protected field load/store, QSBR state); SIMD reads of node key arrays execute atomically with "
+                    "the next hooked access", "uint64 keys only in the scheduled harness",
+                    "ASan+UBSan, assertions and statistics enabled"])
+    return finish(pid, res)
+
+
 CHECKS = {
+    "C03": check_olc,
+    "C04": check_olc,
+    "C09": check_olc,
+    "C14": check_olc,
     "C05": check_qsbr,
     "C06": check_qsbr,
     "C07": check_c07,
@@ -723,6 +786,10 @@ CHECKS = {
 }
 
 REPLAY = {
+    "C03": ("olc", lambda pid: ["--prop", pid]),
+    "C04": ("olc", lambda pid: ["--prop", pid]),
+    "C09": ("olc", lambda pid: ["--prop", pid]),
+    "C14": ("olc", lambda pid: ["--prop", pid]),
     "C05": ("qsbr", lambda pid: ["--prop", pid]),
     "C06": ("qsbr", lambda pid: ["--prop", pid]),
     "C07": ("lock", lambda pid: ["--prop", pid]),
@@ -745,7 +812,7 @@ def main():
     a = ap.parse_args()
     os.makedirs(WORK, exist_ok=True)
     if a.build_all:
-        for t in ["seq", "enc_fast", "enc_san", "lock", "qsbr"]:
+        for t in ["seq", "enc_fast", "enc_san", "lock", "qsbr", "olc"]:
             build(t)
         return 0
     seed = a.seed if a.seed is not None else int(os.environ.get("VERIF_SEED", "1") or 1)
